@@ -21,6 +21,7 @@ def tokenize(source: str):
         'group': 0,
         'attribute': 0,
         'expression': 0,
+        'nested': 0,
         'quote': None
     }
 
@@ -77,11 +78,15 @@ def literal(scanner: Scanner, ctx: dict):
 
         if expression_start:
             # Consume nested expressions, e.g. span{{foo}}
+            # Nested braces may span several literals (a `$` in between ends
+            # current literal), so their depth is kept in context
             if ch == Chars.CurlyBracketOpen:
                 ctx['expression'] += 1
+                ctx['nested'] += 1
             elif ch == Chars.CurlyBracketClose:
-                if ctx['expression'] > expression_start:
+                if ctx['nested']:
                     ctx['expression'] -= 1
+                    ctx['nested'] -= 1
                 else:
                     break
         elif not ctx['quote']:
